@@ -70,7 +70,7 @@ prop("C13", level="proof",
      level_note=_RULE_NOTE + " Bounded (not proved): call chains of LayerRule / DiagramRule / get_evaluable_architecture option validation.",
      explanation="No verdict from undefined or incomplete specifications: exact exceptional postconditions + builder contracts.",
      roots=["Rule.assert_applies", "C13_unknown_name_never_a_verdict", "C13_outcomes_exclusive", "C13_should_not_with_other_verb_is_contradictory"],
-     bounded=[_b("builders", "bounded_rule_chains"), _b("builders", "bounded_unknown_names")], trusted_base=_TB)
+     bounded=[_b("builders", "bounded_rule_chains"), _b("builders", "bounded_unknown_names"), _b("builders", "bounded_other_builders")], trusted_base=_TB)
 prop("C14", level="proof",
      level_text="Functions on the verdict path are verified with module names as an UNINTERPRETED sort (they can only compare names for equality, so results are invariant under "
                 "every injective renaming by construction); the flagged sites that inspect names character-wise are verified in the string view against dotted-boundary "
